@@ -105,7 +105,7 @@ func hasErrors(pkgs []*packages.Package) bool {
 
 // inlinable reports whether the helper's body is in the accepted fragment.
 func inlinable(d *ast.FuncDecl) bool {
-	if d.Body == nil || d.Type.TypeParams != nil {
+	if d.Body == nil || (d.Type.TypeParams != nil && d.Recv != nil) {
 		return false
 	}
 	if d.Recv != nil {
@@ -698,6 +698,18 @@ func callOfStmt(st ast.Stmt) (*ast.CallExpr, bool) {
 
 func calleeFunc(info *types.Info, call *ast.CallExpr) *types.Func {
 	switch f := call.Fun.(type) {
+	case *ast.IndexExpr: // f[T](…)
+		if id, ok := f.X.(*ast.Ident); ok {
+			fn, _ := info.Uses[id].(*types.Func)
+			return fn
+		}
+		return nil
+	case *ast.IndexListExpr: // f[T, U](…)
+		if id, ok := f.X.(*ast.Ident); ok {
+			fn, _ := info.Uses[id].(*types.Func)
+			return fn
+		}
+		return nil
 	case *ast.Ident:
 		fn, _ := info.Uses[f].(*types.Func)
 		return fn
@@ -742,10 +754,127 @@ func inlineAt(pk *packages.Package, file *ast.File, text []byte, st ast.Stmt, ca
 	off := func(p token.Pos) int { return fset.PositionFor(p, false).Offset }
 	helperFile := fset.PositionFor(c.decl.Pos(), false).Filename
 	htext := src(helperFile)
-	hslice := func(a, b token.Pos) string { return string(htext[off(a):off(b)]) }
+	hsliceRaw := func(a, b token.Pos) string { return string(htext[off(a):off(b)]) }
+	var typeSubst func(a, b token.Pos) string // set below, once the substitution is known
+	hslice := func(a, b token.Pos) string {
+		if typeSubst != nil {
+			return typeSubst(a, b)
+		}
+		return hsliceRaw(a, b)
+	}
 	cslice := func(a, b token.Pos) string { return string(text[off(a):off(b)]) }
 	sig := c.obj.Type().(*types.Signature)
 	pfx := fmt.Sprintf("__vn%d_", id)
+	// a generic helper: its type parameters are replaced by the type arguments of this call, written as the caller's
+	// file can write them (same-package types unqualified, others through an import the file already has)
+	tsub := map[types.Object]string{}
+	if c.decl.Type.TypeParams != nil {
+		var fid *ast.Ident
+		switch fx := call.Fun.(type) {
+		case *ast.Ident:
+			fid = fx
+		case *ast.IndexExpr:
+			fid, _ = fx.X.(*ast.Ident)
+		case *ast.IndexListExpr:
+			fid, _ = fx.X.(*ast.Ident)
+		}
+		if fid == nil {
+			return nil, false
+		}
+		inst, ok := pk.TypesInfo.Instances[fid]
+		if !ok || inst.TypeArgs == nil {
+			return nil, false
+		}
+		imports := map[string]string{} // path -> local name in the caller's file
+		for _, im := range file.Imports {
+			pth := strings.Trim(im.Path.Value, "\"")
+			nm := pth[strings.LastIndex(pth, "/")+1:]
+			if im.Name != nil {
+				nm = im.Name.Name
+			} else if ip := pk.Imports[pth]; ip != nil && ip.Name != "" {
+				nm = ip.Name
+			}
+			imports[pth] = nm
+		}
+		bad := false
+		qual := func(p *types.Package) string {
+			if p == pk.Types {
+				return ""
+			}
+			if nm, ok := imports[p.Path()]; ok && nm != "_" && nm != "." {
+				return nm
+			}
+			bad = true
+			return p.Name()
+		}
+		k := 0
+		for _, fl := range c.decl.Type.TypeParams.List {
+			for _, nm := range fl.Names {
+				if k >= inst.TypeArgs.Len() {
+					return nil, false
+				}
+				if o := pk.TypesInfo.Defs[nm]; o != nil {
+					tsub[o] = types.TypeString(inst.TypeArgs.At(k), qual)
+				}
+				k++
+			}
+		}
+		if bad {
+			return nil, false
+		}
+	}
+	// subst rewrites the source text of a node of the helper with the type parameters replaced
+	var substEdits func(n ast.Node) []struct {
+		start, end int
+		text       string
+	}
+	substEdits = func(n ast.Node) []struct {
+		start, end int
+		text       string
+	} {
+		var out []struct {
+			start, end int
+			text       string
+		}
+		if len(tsub) == 0 || n == nil {
+			return out
+		}
+		ast.Inspect(n, func(x ast.Node) bool {
+			if idn, ok := x.(*ast.Ident); ok {
+				if o := pk.TypesInfo.Uses[idn]; o != nil {
+					if t, ok := tsub[o]; ok {
+						out = append(out, struct {
+							start, end int
+							text       string
+						}{off(idn.Pos()), off(idn.End()), t})
+					}
+				}
+			}
+			return true
+		})
+		return out
+	}
+	if len(tsub) > 0 {
+		typeSubst = func(a, b token.Pos) string {
+			txt := []byte(hsliceRaw(a, b))
+			base := off(a)
+			// the nodes between a and b: find the smallest enclosing nodes by scanning the declaration
+			var eds []struct {
+				start, end int
+				text       string
+			}
+			for _, e := range substEdits(c.decl) {
+				if e.start >= base && e.end <= off(b) {
+					eds = append(eds, e)
+				}
+			}
+			sort.Slice(eds, func(i, j int) bool { return eds[i].start > eds[j].start })
+			for _, e := range eds {
+				txt = append(append(append([]byte{}, txt[:e.start-base]...), []byte(e.text)...), txt[e.end-base:]...)
+			}
+			return string(txt)
+		}
+	}
 	var b bytes.Buffer
 	// receiver
 	type bind struct{ name, typ, val string }
@@ -938,6 +1067,17 @@ func inlineAt(pk *packages.Package, file *ast.File, text []byte, st ast.Stmt, ca
 		return nil, false
 	}
 	bodyStart, bodyEnd := off(c.decl.Body.Lbrace)+1, off(c.decl.Body.Rbrace)
+	for _, e := range substEdits(c.decl.Body) {
+		inside := false
+		for _, r := range rets {
+			if e.start >= r.start && e.end <= r.end {
+				inside = true // the return's own text was produced through hslice and is substituted already
+			}
+		}
+		if !inside {
+			rets = append(rets, rr{e.start, e.end, e.text})
+		}
+	}
 	body := append([]byte{}, htext[bodyStart:bodyEnd]...)
 	sort.Slice(rets, func(i, j int) bool { return rets[i].start > rets[j].start })
 	for _, r := range rets {
